@@ -148,7 +148,7 @@ def tlc_ok(res, what):
 
 
 def tlc_violated(res):
-    m = re.search(r"Error: Invariant (\w+) is violated|Error: Action property (\w+) is violated|Error: Deadlock reached|Temporal properties were violated", res["out"])
+    m = re.search(r"Error: Invariant (\w+) is violated|Error: Action property (\w+) is violated|Error: Deadlock reached|Temporal properties were violated|Temporal property \w+ was violated", res["out"])
     return m.group(0) if m else None
 
 
